@@ -1,6 +1,7 @@
 package model
 
 import (
+	"strconv"
 	"encoding/base64"
 	"fmt"
 	"strings"
@@ -178,6 +179,13 @@ func keyValue(r *kit.Rng, s *schema.Node, o GenOpts) string {
 		return fmt.Sprint(1 + r.Intn(n))
 	case "enum":
 		return s.Enums[r.Intn(len(s.Enums))]
+	case "decimal64x":
+		// eight fraction digits, neighbours that differ from the seventh digit on
+		d := n
+		if d > 9 {
+			d = 9
+		}
+		return fmt.Sprintf("%d.5000000%d", 1+r.Intn(2), 1+r.Intn(d))
 	case "decimal64":
 		// neighbours less than 1 apart
 		return fmt.Sprintf("%d.%s", 1+r.Intn(n/2+1), []string{"25", "50", "75"}[r.Intn(3)])
@@ -305,4 +313,14 @@ func (t *Tree) Prune() *Tree {
 		}
 	}
 	return t
+}
+
+// FormatDecimal renders a decimal64 value canonically: two fraction digits
+// when that is exact (the common declaration here), else eight.
+func FormatDecimal(f float64) string {
+	s2 := strconv.FormatFloat(f, 'f', 2, 64)
+	if g, err := strconv.ParseFloat(s2, 64); err == nil && g == f {
+		return s2
+	}
+	return strconv.FormatFloat(f, 'f', 8, 64)
 }
